@@ -900,6 +900,80 @@ impl Term {
 }
 
 // ------------------------------------------------------------------------------------------
+// PlainTerm: the screen attached to the parsers directly, exactly as an embedder does it
+// (no forwarding listener in between), so that any path that bypasses the per-call listener
+// interface - e.g. a batching method added to the trait with a default - is exercised too.
+
+pub struct PlainTerm {
+    pub screen: Arc<Mutex<Screen>>,
+    parser: Option<Parser<'static, Screen>>,
+    bparser: Option<ByteParser<'static, Screen>>,
+}
+
+impl PlainTerm {
+    pub fn new(cols: u32, lines: u32) -> PlainTerm {
+        PlainTerm { screen: Arc::new(Mutex::new(Screen::new(cols, lines))), parser: None, bparser: None }
+    }
+    pub fn lock(&self) -> MutexGuard<'_, Screen> {
+        self.screen.lock().unwrap_or_else(|e| e.into_inner())
+    }
+    pub fn snap(&self) -> Snap {
+        Snap::of(&self.lock())
+    }
+    pub fn exec(&mut self, op: &Op) {
+        match op {
+            Op::FeedStr(s) => {
+                if self.parser.is_none() {
+                    self.parser = Some(Parser::new(self.screen.clone()));
+                }
+                self.parser.as_mut().unwrap().feed(s.clone());
+            }
+            Op::FeedBytes(b) => {
+                if self.bparser.is_none() {
+                    self.bparser = Some(ByteParser::new(self.screen.clone()));
+                }
+                self.bparser.as_mut().unwrap().feed(b);
+            }
+            Op::SelCharset(code) => {
+                if self.bparser.is_none() {
+                    self.bparser = Some(ByteParser::new(self.screen.clone()));
+                }
+                self.bparser.as_mut().unwrap().select_other_charset(code);
+            }
+            Op::SetUtf8(b) => {
+                if self.parser.is_none() {
+                    self.parser = Some(Parser::new(self.screen.clone()));
+                }
+                self.parser.as_mut().unwrap().set_use_utf8(*b);
+            }
+            Op::Resize(l, c) => self.lock().resize(*l, *c),
+            Op::ClearDirty => self.lock().dirty.clear(),
+            Op::Fill { rows, sparse } => {
+                let mut s = self.lock();
+                let ops = fill_ops(s.columns, s.lines, *rows, *sparse);
+                for o in &ops {
+                    apply_listener(&mut *s, o);
+                }
+            }
+            other => {
+                let mut s = self.lock();
+                apply_listener(&mut *s, other);
+            }
+        }
+    }
+    /// run a whole history; Err = (failing op index, panic text)
+    pub fn run(cols: u32, lines: u32, ops: &[Op]) -> Result<Snap, (usize, String)> {
+        let mut t = PlainTerm::new(cols, lines);
+        for (i, op) in ops.iter().enumerate() {
+            if catch_unwind(AssertUnwindSafe(|| t.exec(op))).is_err() {
+                return Err((i, take_panic()));
+            }
+        }
+        Ok(t.snap())
+    }
+}
+
+// ------------------------------------------------------------------------------------------
 // running a case through the stepper
 
 pub struct CaseResult {
@@ -1169,6 +1243,52 @@ fn run_on(term: &mut Term, case: &Case, from: usize, cfg: &Cfg) -> CaseResult {
                     }
                 } else {
                     c15_shadow = Some(sh);
+                }
+            }
+        }
+    }
+
+    // direct attachment vs per-call forwarding: the state reached through the checked listener
+    // (every step of which agreed with the model) must be the state an embedder gets
+    if from == 0 {
+        let panicked = lock(&term.tee).chk.as_ref().map_or(false, |c| c.fails.iter().any(|f| f.kind == "panic"));
+        if !panicked {
+            extra_stats.evaluations += 1;
+            match PlainTerm::run(case.cols, case.lines, &case.ops) {
+                Ok(direct) => {
+                    let forwarded = term.snap();
+                    let skip: Vec<&str> = if cfg.dirty { vec!["dirty"] } else { vec![] };
+                    if let Some(d) = forwarded.diff(&direct, &skip) {
+                        let mut owners: Vec<&str> = vec![cfg.target.as_str()];
+                        if cfg.target == "*" {
+                            owners = vec!["C02"];
+                        }
+                        for o in owners {
+                            extra_fails.push(Failure {
+                                property: o.to_string(),
+                                kind: "direct-vs-forwarded".into(),
+                                step: case.ops.len().saturating_sub(1),
+                                op: case.ops.last().map(pretty_op).unwrap_or_default(),
+                                detail: format!(
+                                    "the same history through a step-checked forwarding listener vs with the Screen attached to the parser directly (as embedders do): {}",
+                                    d
+                                ),
+                                sig: format!("{}:direct-vs-forwarded", o),
+                            });
+                        }
+                    }
+                }
+                Err((i, p)) => {
+                    if cfg.wants("C01") {
+                        extra_fails.push(Failure {
+                            property: "C01".into(),
+                            kind: "panic".into(),
+                            step: i,
+                            op: pretty_op(&case.ops[i]),
+                            detail: format!("panicked with the Screen attached directly: {}", p),
+                            sig: "C01:panic:direct".into(),
+                        });
+                    }
                 }
             }
         }
